@@ -241,11 +241,11 @@ def run(ctx):
             "hash": S.hash,
         }
     ).filter(lambda c: c["sid"] != c["H"])
-    ctx.explore(kdf_st.map(pkt.norm_case), lambda c: execute(ctx, c), ctx.scale(5000, 12000))
+    ctx.explore(kdf_st.map(pkt.norm_case), lambda c: execute(ctx, c), ctx.scale(4000, 60000))
 
     pairs = [(c, m) for c in pkt.CIPHERS for m in pkt.MACS]
     work = [(c, m, h) for (c, m) in pairs for h in pkt.KEX_HASHES]
-    per = ctx.scale(1, 12)
+    per = ctx.scale(1, 40)
     small = st.lists(S.msg(st.integers(0, 70)), min_size=1, max_size=3)
     for idx, (c, m, h) in enumerate(work):
         if idx % ctx.nworkers != ctx.worker:
